@@ -84,6 +84,11 @@ type result struct {
 	WallS       float64        `json:"wall_s"`
 	Bounds      map[string]any `json:"bounds,omitempty"`
 	PerScenario []scenarioStat `json:"per_scenario,omitempty"`
+	RaceExecs   []struct {
+		Case    string `json:"case"`
+		Choices []int  `json:"choices"`
+		N       int    `json:"n"`
+	} `json:"race_execs,omitempty"`
 }
 
 // run is one scenario invocation of a check.
@@ -268,10 +273,25 @@ func runWorker(b *build, pkg string, sp spec, wdir string) (*result, error) {
 	// race reports of this worker
 	if sp.Race {
 		files, _ := filepath.Glob(filepath.Join(wdir, "race.*"))
+		idx := 0
 		for _, f := range files {
 			txt, _ := os.ReadFile(f)
 			for _, rp := range parseRaceReports(string(txt)) {
-				res.Violations = append(res.Violations, &violation{Key: "C15/race/" + rp.key, Scenario: sp.Scenario, Message: rp.text, Count: 1})
+				v := &violation{Key: "C15/race/" + rp.key, Scenario: sp.Scenario, Message: rp.text, Count: 1}
+				// the idx-th report belongs to the execution whose RaceErrors() increment covers it
+				seen := 0
+				for _, re := range res.RaceExecs {
+					if idx < seen+re.N {
+						v.Case, v.Choices = re.Case, re.Choices
+						if v.Choices == nil {
+							v.Choices = []int{}
+						}
+						break
+					}
+					seen += re.N
+				}
+				idx++
+				res.Violations = append(res.Violations, v)
 			}
 		}
 	}
